@@ -217,6 +217,11 @@ def build_world(es, loop_ref, lazy=False):
         rest = {k: v for k, v in store.items() if k[1] in names[1::2]}
         subs = [DictLoader({n: sources[n] for n in names[::2]}),
                 StaticSimLoader(rest, loop_ref, "sync", namespaced=bool(ns_key))]
+        if ns_key and es.get("overrides"):
+            # per-tenant overrides in front of shared defaults: the first delegate only knows tenant u1's
+            # variants (decided from the request's namespace / the render context), the second knows every name
+            subs = [StaticSimLoader({k: v for k, v in store.items() if k[0] == "u1"}, loop_ref, "sync", namespaced=True),
+                    DictLoader(dict(sources))]
         if es.get("factory"):
             ld = liquid.make_choice_loader(subs, auto_reload=es["auto_reload"], namespace_key=ns_key,
                                            cache_size=es["capacity"] if kind == "cchoice" else 0)
@@ -466,13 +471,15 @@ class C17:
             lkind = rng.choice(["dict", "cdict", "sim", "csim", "choice", "cchoice", "cfs", "cchfs"])
             envs.append({"recipe": recipe, "loader": lkind,
                          "ns_key": NS_KEY if lkind in ("sim", "csim", "choice", "cchoice") and rng.chance(0.4) else "",
-                         "factory": rng.chance(0.3), "ext": rng.choice([None, ".liquid"]),
+                         "factory": rng.chance(0.3), "ext": rng.choice([None, ".liquid"]), "overrides": rng.chance(0.5),
                          "capacity": rng.choice([1, 2, 300]), "auto_reload": rng.chance(0.7),
                          "templates": templates, "mains": mains})
         datas = []
         for _ in range(rng.randint(1, 3)):
             d = G.gen_data(rng, drops=True)
             d["special"] = self._special(rng)
+            if rng.chance(0.4):
+                d["vars"][NS_KEY] = rng.choice(["u1", "u2"])    # the tenant, as a render argument (partials see it)
             if rng.chance(0.15) and "drop" in d["vars"]:
                 d["fail_at"] = rng.randint(1, 4)
             datas.append(d)
